@@ -72,19 +72,20 @@ theorem linv_deqDone {s s' : State} {t : Tid} {j : Nat} {res : Bool}
   unfold deqDone at h
   dsimp only at h
   have hjc : j < (s.fr t).count := Nat.lt_of_lt_of_le hj hd.len
-  have hd' : InDeq { s.fr t with ready := if !res ∧ (s.fr t).ready = (s.fr t).count then j else (s.fr t).ready,
-                                  deqRes := (s.fr t).deqRes ++ [res] } :=
-    { hd with rdy := readyOK_push hd.rdy hl hjc, dlen := by simp; omega }
+  have hd' : ∀ u : List Unl, InDeq ({ s.fr t with
+      ready := (if !res ∧ (s.fr t).ready = (s.fr t).count then j else (s.fr t).ready),
+      deqRes := (s.fr t).deqRes ++ [res], deqUnl := u } : Frame) :=
+    fun u => { hd with rdy := { (readyOK_push hd.rdy hl hjc) with }, dlen := by simp; omega }
   split at h
   · rename_i hlt
     cases h
     simp only [setPc_pc, setPc_fr, setFr_fr, if_true]
-    exact linv_deqNext hd' (by simp; omega) hlt hf
+    exact linv_deqNext (hd' _) (by simp; omega) hlt hf
   · rename_i hlt
     cases h
     simp only [setPc_pc, setPc_fr, if_true]
     apply linv_unbind_fin
-    · simpa using hd'
+    · simpa using hd' _
     · simp at hlt ⊢; omega
 
 theorem linv_afterEnq {s s' : State} {t : Tid} {i : Nat} {res : Bool}
